@@ -1,12 +1,14 @@
 SPECIFICATION Spec
 CONSTANTS
-  Contents <- Quick14
+  Contents <- Small6
   BoundModes <- BM2
   Schema = "AB"
   MaxDepth = 2
   Rich = FALSE
   EmitMin = 0
-  Emit = TRUE
+  Emit = FALSE
+  FixF29 <- FixOff
+  CustomOn <- SwitchOn
 INVARIANT ExecMatches
 INVARIANT DenMatches
 INVARIANT MetaTruthful
@@ -15,6 +17,4 @@ INVARIANT DiagSound
 INVARIANT LazyPromise
 INVARIANT ExecOnce
 INVARIANT RejectsAll
-INVARIANT EmitState
-PROPERTY NoOpIdentity
 CHECK_DEADLOCK FALSE
